@@ -285,6 +285,20 @@ class Writer:
         for vecnode, names in views[:2]:
             if rng.random() < 0.6 and any(nm in rest for nm in names):
                 sub = {nm: rest.pop(nm, 0.0) for nm in names}
+                if self.risky and rng.random() < 0.3:
+                    # the same variables reached through several terms: a @ v + b @ v, and a scalar term next to the vector term
+                    # (coefficients accumulate; the order of the terms must not matter)
+                    part = {nm: q(rng, -2, 2) for nm in names}
+                    node1, k1 = self.vector_piece(vecnode, names, part)
+                    pieces.append(node1)
+                    residual -= k1
+                    sub = {nm: sub[nm] - part[nm] for nm in names}
+                    nm0 = rng.choice(names)
+                    extra = q(rng, -2, 2, nz=True)
+                    node0, k0 = self.term(nm0, extra)
+                    pieces.append(node0)
+                    residual -= k0
+                    sub[nm0] -= extra
                 node, k = self.vector_piece(vecnode, names, sub)
                 pieces.append(node)
                 residual -= k
